@@ -3,7 +3,7 @@ import MythVerif.Proofs.WsQueueTsoTac
 namespace MythVerif.WsqTso
 open MythVerif.Wsq
 
-set_option maxHeartbeats 1000000 in
+set_option maxHeartbeats 4000000 in
 theorem t_tk3 (s s' : St) (p : Pid) (b x) : Inv s → s.tpc p = .tk3 b x → stepT s p = some s' → Inv s' := by
   intro h heq hs
   have hb := h.tbufE p (by simp [heq, mayBuf])
@@ -13,7 +13,7 @@ theorem t_tk3 (s s' : St) (p : Pid) (b x) : Inv s → s.tpc p = .tk3 b x → ste
   simp only [ownerLocked, carry, resetting, ownerFlight] at *
   tso_finish
 
-set_option maxHeartbeats 1000000 in
+set_option maxHeartbeats 4000000 in
 theorem t_tk4 (s s' : St) (p : Pid) (r) : Inv s → s.tpc p = .tk4 r → stepT s p = some s' → Inv s' := by
   intro h heq hs
   have hcfg := h.cfg
@@ -24,7 +24,7 @@ theorem t_tk4 (s s' : St) (p : Pid) (r) : Inv s → s.tpc p = .tk4 r → stepT s
   simp only [ownerLocked, carry, resetting, ownerFlight] at *
   tso_finish
 
-set_option maxHeartbeats 1000000 in
+set_option maxHeartbeats 4000000 in
 theorem t_tk5 (s s' : St) (p : Pid) (b) : Inv s → s.tpc p = .tk5 b → stepT s p = some s' → Inv s' := by
   intro h heq hs
   have hb := h.tbufE p (by simp [heq, mayBuf])
@@ -34,7 +34,7 @@ theorem t_tk5 (s s' : St) (p : Pid) (b) : Inv s → s.tpc p = .tk5 b → stepT s
   simp only [ownerLocked, carry, resetting, ownerFlight] at *
   tso_finish
 
-set_option maxHeartbeats 1000000 in
+set_option maxHeartbeats 4000000 in
 theorem t_tk6 (s s' : St) (p : Pid) : Inv s → s.tpc p = .tk6 → stepT s p = some s' → Inv s' := by
   intro h heq hs
   have hcfg := h.cfg
